@@ -33,7 +33,7 @@ ASSUMPTIONS = ["rate constant over the interval (the property's premise)", "rela
 REQUIRED = ["C06:split-invariance", "C06:same-instant-zero", "C06:earlier-time-rejected", "C06:query-changes-nothing",
             "C06:twin-query-bit-identical", "C06:positive-never-charged", "C06:negative-charged-at-r+m",
             "C06:margin-earns-nothing", "C06:rebalance-reports-interest", "C06:failed-rebalance-accrues-once"]
-REQUIRED_CATS = ["rate-quote-type:f32", "rate-quote-type:int", "rate-quoted-two-sided", "sub-second-spacing", "tz-aware-changing-offsets"]
+REQUIRED_CATS = ["query-beyond-next-accrual", "rate-quote-type:f32", "rate-quote-type:int", "rate-quoted-two-sided", "sub-second-spacing", "tz-aware-changing-offsets"]
 REQUIRED_HITS = ["Broker.accrued_interest"]
 TECHNIQUE = "runtime monitoring: closed-form reference model (60-digit decimal) and twin runs over generated accrual schedules"
 LEVEL_TEXT = ("Exploration. The real Broker.accrued_interest / Broker.rebalance are driven through thousands of generated accrual "
@@ -135,11 +135,27 @@ def case(ctx, i, tier):
     # the interest clock starts at the first call of either kind (DESIGN 4.2-d)
     b.accrued_interest(t0, True)
     twin.accrued_interest(t0, True)
-    for (a_, c_), (au_, cu_) in zip(zip(cuts, cuts[1:]), zip(cuts_us, cuts_us[1:])):
+    for j_, ((a_, c_), (au_, cu_)) in enumerate(zip(zip(cuts, cuts[1:]), zip(cuts_us, cuts_us[1:]))):
         t = t0 + timedelta(microseconds=cu_)
         if aware:
             t = t.astimezone(rng.choice(zones))
         a_, c_ = Decimal(au_) / 10 ** 6, Decimal(cu_) / 10 ** 6
+        if j_ + 2 < len(cuts_us) and rng.random() < 0.25:
+            # a look-ahead query ("what would I have earned by then?") for an instant BEYOND the next accrual: it
+            # answers for the whole stretch from the last accrual and leaves no trace in later accruals
+            interleaved = True
+            later = rng.randrange(j_ + 2, len(cuts_us))
+            t_later = t0 + timedelta(microseconds=cuts_us[later])
+            if aware:
+                t_later = t_later.astimezone(rng.choice(zones))
+            before = dict(b.holdings_quantity)
+            qv = b.accrued_interest(t_later, False)
+            bal = before[Cash()]
+            want = ref(bal, rate, markup, Decimal(cuts_us[later]) / 10 ** 6 - a_) - Decimal(float(bal))
+            ctx.check("C06:query-changes-nothing", dict(b.holdings_quantity) == before, before=before, ahead=True)
+            ctx.check("C06:query-amount", abs(Decimal(float(qv)) - want) <= Decimal(1e-10) * max(abs(Decimal(float(bal))), abs(want)) + Decimal(1e-300),
+                      got=float(qv), want=float(want), ahead=True)
+            ctx.cat("query-beyond-next-accrual")
         if rng.random() < 0.3:
             interleaved = True
             before = dict(b.holdings_quantity)
